@@ -1,6 +1,7 @@
 package main
 
 import (
+	"fmt"
 	"go/token"
 	"go/types"
 	"sort"
@@ -110,7 +111,96 @@ func factsOfMode(fn *ssa.Function, conv bool) *FuncFacts {
 		ff.Extra[i] = edgeHelperFacts(ff.Edges[i], conv)
 		ff.Extra[i] = append(ff.Extra[i], searchFacts(ff, ff.Facts[i])...)
 	}
+	// several results of one helper call tested one after the other (err != nil → return;
+	// if unchanged → return; …): on the later branch the helper's returns are narrowed by what
+	// the earlier, dominating branches established about the other results
+	for i := 0; i < n; i++ {
+		call, _, _ := helperTest(ff.Edges[i])
+		if call == nil || newHelperCallee(call) == nil {
+			continue
+		}
+		var also []resCon
+		for j := 0; j < n; j++ {
+			if j == i || ff.Edges[j].If == ff.Edges[i].If {
+				continue
+			}
+			if c2, k2, w2 := helperTest(ff.Edges[j]); c2 == call && edgeDominates(ff.Edges[j], ff.Edges[i].From) {
+				also = append(also, resCon{k2, w2})
+			}
+		}
+		if len(also) > 0 {
+			have := map[string]bool{}
+			for _, f := range ff.Extra[i] {
+				have[f.String()] = true
+			}
+			for _, f := range edgeHelperFactsC(ff.Edges[i], also, conv) {
+				if !have[f.String()] {
+					ff.Extra[i] = append(ff.Extra[i], f)
+				}
+			}
+		}
+	}
+	// a branch on a short-circuit value (`case a && b:`, `x := a || b; if x`): see phiCondFacts
+	for i := 0; i < n; i++ {
+		ff.Extra[i] = append(ff.Extra[i], phiCondFacts(ff, ff.Edges[i])...)
+	}
 	return ff
+}
+
+// phiCondFacts: the branch tests a φ of booleans (how go/ssa spells a && b / a || b when the
+// value is computed rather than branched on). On the edge where the φ has the value that only
+// one of its incoming edges can deliver — every other one delivers the opposite constant —
+// control came in over that edge: the facts on it hold, and so does the operand it carries.
+func phiCondFacts(ff *FuncFacts, e Edge) []Fact {
+	cond, truth := e.If.Cond, e.Truth
+	for {
+		u, ok := cond.(*ssa.UnOp)
+		if !ok || u.Op != token.NOT {
+			break
+		}
+		cond, truth = u.X, !truth
+	}
+	phi, ok := cond.(*ssa.Phi)
+	if !ok {
+		return nil
+	}
+	cand := -1
+	for k, ev := range phi.Edges {
+		if c, isC := ev.(*ssa.Const); isC && c.Value != nil && c.Value.ExactString() == fmt.Sprint(!truth) {
+			continue
+		}
+		if cand >= 0 {
+			return nil
+		}
+		cand = k
+	}
+	if cand < 0 || cand >= len(phi.Block().Preds) {
+		return nil
+	}
+	seen := map[string]bool{}
+	var out []Fact
+	add := func(f Fact) {
+		if s := f.String(); !seen[s] {
+			seen[s] = true
+			out = append(out, f)
+		}
+	}
+	pred := phi.Block().Preds[cand]
+	for j, e2 := range ff.Edges {
+		// facts of edges dominating the predecessor, and of the edge pred → φ block itself
+		// (Extra of other φ branches is not consulted: no recursion)
+		if edgeDominates(e2, pred) || (e2.From == pred && e2.To == phi.Block() && pred.Succs[0] != pred.Succs[len(pred.Succs)-1]) {
+			add(ff.Facts[j])
+		}
+	}
+	if _, isC := phi.Edges[cand].(*ssa.Const); !isC {
+		f := factOf(ff.tb.of(phi.Edges[cand], 1), truth)
+		add(f)
+		if m, ok := f.Mirror(); ok {
+			add(m)
+		}
+	}
+	return out
 }
 
 // searchFacts: on an edge where the result of slices.IndexFunc(xs, pred) / slices.Index(xs, v)
@@ -659,8 +749,8 @@ func completesThrough(a ssa.Instruction) bool {
 	f := a.Parent()
 	ff := factsOf(f)
 	for _, r := range Returns1(f) {
-		if classifyReturn(ff, r) == RetErr {
-			continue
+		if classifyReturn(ff, r) == RetErr || r.Block() == f.Recover {
+			continue // (the recover block is where a panic in a deferred call lands)
 		}
 		if !(a.Block() == r.Block() || a.Block().Dominates(r.Block())) {
 			return false
@@ -697,6 +787,36 @@ func instrDominatesCross(a, b ssa.Instruction) bool {
 		}
 		return true
 	}
+	// a and b in two different helpers of one function (phases called one after the other):
+	// in every common root, each call chain leading to a starts before each chain leading to b,
+	// and a always executes before its helper frames return
+	if isNewHelper(fa) && isNewHelper(fb) {
+		common := 0
+		for _, ra := range knownRootsOf(fa) {
+			for _, rb := range knownRootsOf(fb) {
+				if ra != rb {
+					continue
+				}
+				common++
+				for _, ca := range helperChains(ra, fa) {
+					if !completesThrough(a) {
+						return false
+					}
+					for _, c := range ca[1:] {
+						if !completesThrough(c) {
+							return false
+						}
+					}
+					for _, cb := range helperChains(ra, fb) {
+						if ca[0] == cb[0] || !instrDominates(ca[0], cb[0]) {
+							return false
+						}
+					}
+				}
+			}
+		}
+		return common > 0
+	}
 	return false
 }
 
@@ -725,6 +845,38 @@ type pathSearch struct {
 	stop     func(ssa.Instruction) bool
 	retOK    func(*ssa.Return) bool
 	passMemo map[*ssa.Function]int // 1: some path through the helper avoids stop, 2: none
+	// blocked: branch edges of the caller that cannot be taken after the helper left through
+	// the return the search came out of (err == nil after `return nil, err`, …)
+	blocked map[[2]*ssa.BasicBlock]bool
+}
+
+// infeasibleAfter: the branch edges in the function of call site c that contradict helper
+// return r (they test a result of c for a value r does not deliver).
+func infeasibleAfter(c *ssa.Call, r *ssa.Return) map[[2]*ssa.BasicBlock]bool {
+	out := map[[2]*ssa.BasicBlock]bool{}
+	gf := factsOf(r.Parent())
+	for _, e := range branchEdges(c.Parent()) {
+		call, k, want := helperTest(e)
+		if call != c || k >= len(r.Results) {
+			continue
+		}
+		v := r.Results[k]
+		may := true
+		switch want {
+		case "nil":
+			may = classifyErrValue(gf, v, r.Block(), 0) != RetErr
+		case "non-nil":
+			may = classifyErrValue(gf, v, r.Block(), 0) != RetNil
+		case "true", "false":
+			if cst, ok := v.(*ssa.Const); ok && cst.Value != nil {
+				may = cst.Value.ExactString() == want
+			}
+		}
+		if !may {
+			out[[2]*ssa.BasicBlock{e.From, e.To}] = true
+		}
+	}
+	return out
 }
 
 // helperPasses: can control enter new helper g and come back without executing a stop?
@@ -800,7 +952,7 @@ func (ps *pathSearch) run(b0 *ssa.BasicBlock, start int, depth int) []*ssa.Basic
 				// the caller returns exactly what the helper returned: this return is the exit
 				return path
 			}
-			up := &pathSearch{stop: ps.stop, retOK: ps.retOK, passMemo: ps.passMemo}
+			up := &pathSearch{stop: ps.stop, retOK: ps.retOK, passMemo: ps.passMemo, blocked: infeasibleAfter(c, r)}
 			if p := up.run(c.Block(), instrIndex(c)+1, depth+1); p != nil {
 				return append(append([]*ssa.BasicBlock{}, path...), p...)
 			}
@@ -820,6 +972,9 @@ func (ps *pathSearch) run(b0 *ssa.BasicBlock, start int, depth int) []*ssa.Basic
 	seen := map[*ssa.BasicBlock]bool{}
 	var work []item
 	for _, s := range b0.Succs {
+		if ps.blocked[[2]*ssa.BasicBlock{b0, s}] {
+			continue
+		}
 		work = append(work, item{s, []*ssa.BasicBlock{b0, s}})
 	}
 	for len(work) > 0 {
@@ -840,7 +995,7 @@ func (ps *pathSearch) run(b0 *ssa.BasicBlock, start int, depth int) []*ssa.Basic
 			continue
 		}
 		for _, s := range it.b.Succs {
-			if !seen[s] {
+			if !seen[s] && !ps.blocked[[2]*ssa.BasicBlock{it.b, s}] {
 				np := append(append([]*ssa.BasicBlock{}, it.path...), s)
 				work = append(work, item{s, np})
 			}
